@@ -38,7 +38,8 @@ def _worker(job):
         mod = importlib.import_module(f"contracts.{prop.lower()}")
         verify.KNOWN = _known()
         unit = mod.units(tier)[idx]
-        ur = verify.run_unit(unit, timeout_ms=timeout_ms, prefixes=prefixes, split_at=SPLIT_AT if prefixes is None else 0, budget=0 if prefixes is None else BUDGET)
+        ur = verify.run_unit(unit, timeout_ms=timeout_ms, prefixes=prefixes, split_at=(unit.split_at or SPLIT_AT) if prefixes is None else 0,
+                             budget=0 if prefixes is None else (1 if unit.split_at else BUDGET))
         res = []
         for r in ur.results:
             res.append(dict(name=r.name, status=r.status, backend=r.backend, time_s=round(r.time_s, 4), detail=r.detail[:800],
